@@ -156,7 +156,7 @@ def ev(n, env, small_lits=True):
     raise Unknown("expression kind %s: %s" % (k, up(n)[:60]))
 
 
-def equiv(fn, node, roles, ref, domain=range(0, 4), pre=None, consts=None):
+def equiv(fn, node, roles, ref, domain=range(0, 4), pre=None, consts=None, any_literals=False):
     """roles: {role: regex over leaf text}; every leaf of the normalised expression must match exactly one role and all leaves of a role must be
     the same text.  ref(e) gets e[role] for every role.  pre(e) restricts the domain (the context's invariants)."""
     nf = _tnorm(fn, strip(node) if isinstance(node, Node) else node)
@@ -180,7 +180,7 @@ def equiv(fn, node, roles, ref, domain=range(0, 4), pre=None, consts=None):
         if consts:
             env.update(consts)
         try:
-            got = ev(nf, env)
+            got = ev(nf, env, small_lits=not any_literals)
         except Unknown as x:
             return ("unknown", "%s in `%s`" % (x, up(nf)[:120]))
         want = ref(e)
